@@ -1,3 +1,4 @@
+import HyperModel.Generated.FactsC30
 /-
 Model of the read-only action APIs vs on-chain execution (property C30) — core Lean only.
 
@@ -138,6 +139,33 @@ def simulateActions (s : State) : List Prog → Option (List (Out × Scope))
     match runRec p s Scope.empty with
     | (.ok o, s', rc) => (simulateActions s' rest).map ((o, rc) :: ·)
     | _ => none
+
+/-! ### the entry points with their admission checks
+
+`ExecuteActions` rejects an empty list and a list longer than `rules.GetMaxActionsPerTx()`;
+a transaction with too many actions fails `PreExecute` (`ErrTooManyActions`).
+`SimulateActions` rejects only the empty list: it has NO upper bound, so lists above the limit
+simulate although they can never be on chain (outside the property's quantifier "up to the
+action limit"; tie-checked, see `simulate_above_limit` in Props). -/
+
+def maxActions : Nat := HyperModel.Generated.C30.maxActionsPerTx
+
+def executeActionsRPC (s : State) (acts : List Action) : Option Reply :=
+  if acts.isEmpty || acts.length > maxActions then none else some (executeActions s acts)
+
+def simulateActionsRPC (s : State) (progs : List Prog) : Option (List (Out × Scope)) :=
+  if progs.isEmpty then none else simulateActions s progs
+
+inductive TxRes
+  | tooMany
+  | unpayable
+  | executed (r : Reply)
+
+def onchainTx (deduct : State → Option State) (sponsor : Scope) (s : State) (acts : List Action) : TxRes :=
+  if acts.length > maxActions then .tooMany else
+  match onchain deduct sponsor s acts with
+  | none => .unpayable
+  | some r => .executed r
 
 /-! ### the reference VM's `Transfer` as a program (examples/morpheusvm) -/
 
